@@ -16,6 +16,13 @@ HINTS = {
        "line ends, TAB, leading / trailing blanks, upper / lower case, an empty field. As before the visible effect must be a violation of "
        "the property above, the test suite must still pass, and the change must need something specific to manifest. Make your two changes "
        "of two DIFFERENT kinds from this list."),
+ '12': ("Choose changes of two DIFFERENT kinds from this list: (a) copies: an object of the library that is copied (copy.copy, copy.deepcopy, pickle round trip - "
+        "the library has tools that pickle its indexes) or compared (==, !=, hash, use as a dict key) and then used like the original; (b) inputs in another container "
+        "or buffer type the code accepts today: bytearray or memoryview for bytes, a numpy array or a range for a list, numpy.int64 for an int used as an index or a count, "
+        "a io.BufferedReader / a subclass of io.BytesIO for a stream; (c) the object used again after its 'with' block ended, after close(), or re-entered a second time; "
+        "(d) an operation that fails half way (an exception the caller catches) and what the same object answers afterwards; (e) arithmetic at a sign or zero boundary: a "
+        "negative or zero value where positive is usual (a negative depth, a zero step, a descending axis, an empty range), integer division or modulo of a negative number. "
+        "As before the visible effect must be a violation of the property above, the test suite must still pass, and the change must need something specific to manifest."),
  '11': ("Choose changes of two DIFFERENT kinds from this list: (a) a count or size at a representation boundary: 255 / 256, 65535 / 65536, 127 / 128 "
         "things (channels, frames, records, rows, characters, files), or one more than a buffer or block size used in the code; (b) two modes of the "
         "same operation that must agree on valid input: keep-going against strict, recursive against flat, with and without an optional table / header / "
